@@ -20,6 +20,8 @@ sys.path.insert(0, os.path.dirname(os.path.abspath(__file__)))
 from gen import core  # noqa: E402
 
 CHECKS = {
+    "C03": "gen.c03",
+    "C04": "gen.c04",
     "C06": "gen.c06",
     "C07": "gen.c07",
     "C11": "gen.c11",
